@@ -811,7 +811,6 @@ func (g *Gen) convert(v *ssa.Convert) {
 		g.guard(and(eq("(sl_arr "+r+")", arr), eq("(sl_off "+r+")", "0"), "(<= (sl_len "+r+") (sl_cap "+r+"))"))
 		if et.Underlying().(*types.Basic).Kind() == types.Uint8 {
 			g.guard(eq("(sl_len "+r+")", "(slen "+x+")"))
-			g.declare("str.of", "((Array Int Int) Int Int) Str")
 			g.guard(eq("(str.of (select "+g.heap(g.arrHeap(et))+" "+arr+") 0 (slen "+x+"))", x))
 			ah := g.heap(g.arrHeap(et))
 			g.guard("(forall ((i Int)) (! (=> (and (<= 0 i) (< i (slen " + x + "))) (= (select (select " + ah + " " + arr + ") i) (sat " + x + " i))) :pattern ((select (select " + ah + " " + arr + ") i))))")
@@ -822,7 +821,6 @@ func (g *Gen) convert(v *ssa.Convert) {
 		et := from.Underlying().(*types.Slice).Elem()
 		if et.Underlying().(*types.Basic).Kind() == types.Uint8 {
 			g.guard(eq("(slen "+r+")", "(sl_len "+x+")"))
-			g.declare("str.of", "((Array Int Int) Int Int) Str")
 			g.guard(eq(r, "(str.of (select "+g.heap(g.arrHeap(et))+" (sl_arr "+x+")) (sl_off "+x+") (sl_len "+x+"))"))
 			ah := g.heap(g.arrHeap(et))
 			g.guard("(forall ((i Int)) (! (=> (and (<= 0 i) (< i (sl_len " + x + "))) (= (sat " + r + " i) (select (select " + ah + " (sl_arr " + x + ")) (+ (sl_off " + x + ") i)))) :pattern ((sat " + r + " i))))")
